@@ -87,7 +87,14 @@ def run(ctx, prog):
         def one(name=name, rx=rx, sig=sig, inline=inline, unwind=unwind):
             f = prog.one(rx, sig=sig)
             A = Auditor(ctx, prog)
-            paths, ex = A.paths(f, inline=inline, unwind=unwind, allow_bound=True, max_depth=8)
+            try:
+                paths, ex = A.paths(f, inline=inline, unwind=unwind, allow_bound=True, max_depth=8, same_file=True)
+            except Refuse as e:
+                # a same-file helper the executor cannot follow stays an uninterpreted callee (as listed per entry point)
+                note = '%s: same-file helpers not inlined (%s)' % (name, str(e)[:80])
+                if note not in ctx.outside:
+                    ctx.outside.append(note)
+                paths, ex = A.paths(f, inline=inline, unwind=unwind, allow_bound=True, max_depth=8)
             panics = [p for p in paths if p.kind == 'panic']
             reach = [p for p in paths if p.kind == 'return']
             if not reach:
